@@ -109,6 +109,36 @@ func (f *fakeFactory) CreateRandom(size int) (securememory.Secret, error) {
 	return &fakeSecret{b: b, f: f}, nil
 }
 
+// ---- counting spies (C20 under concurrency) -------------------------------------------------------
+
+type countMS struct {
+	inner *persistence.MemoryMetastore
+	reads atomic.Int64
+}
+
+func (c *countMS) Load(ctx context.Context, id string, created int64) (*appencryption.EnvelopeKeyRecord, error) {
+	c.reads.Add(1)
+	return c.inner.Load(ctx, id, created)
+}
+func (c *countMS) LoadLatest(ctx context.Context, id string) (*appencryption.EnvelopeKeyRecord, error) {
+	c.reads.Add(1)
+	return c.inner.LoadLatest(ctx, id)
+}
+func (c *countMS) Store(ctx context.Context, id string, created int64, e *appencryption.EnvelopeKeyRecord) (bool, error) {
+	return c.inner.Store(ctx, id, created, e)
+}
+
+type countKMS struct {
+	inner *kms.StaticKMS
+	decs  atomic.Int64
+}
+
+func (c *countKMS) EncryptKey(ctx context.Context, b []byte) ([]byte, error) { return c.inner.EncryptKey(ctx, b) }
+func (c *countKMS) DecryptKey(ctx context.Context, b []byte) ([]byte, error) {
+	c.decs.Add(1)
+	return c.inner.DecryptKey(ctx, b)
+}
+
 // ---- world ------------------------------------------------------------------------------------
 
 type world struct {
@@ -122,6 +152,8 @@ type world struct {
 	pays  map[string][]byte
 	cfg   config
 	extra []*appencryption.SessionFactory
+	cms   *countMS
+	ckms  *countKMS
 }
 
 type config struct {
@@ -168,7 +200,7 @@ func (w *world) policy() *appencryption.CryptoPolicy {
 
 func (w *world) newFactory() *appencryption.SessionFactory {
 	return appencryption.NewSessionFactory(&appencryption.Config{Service: "svc", Product: "prod", Policy: w.policy()},
-		w.ms, w.kms, aead.NewAES256GCM(), appencryption.WithSecretFactory(w.sf))
+		w.cms, w.ckms, aead.NewAES256GCM(), appencryption.WithSecretFactory(w.sf))
 }
 
 func newWorld(cfg config, seed uint64) *world {
@@ -181,6 +213,8 @@ func newWorld(cfg config, seed uint64) *world {
 		panic(err)
 	}
 	w.kms = k
+	w.cms = &countMS{inner: w.ms}
+	w.ckms = &countKMS{inner: k}
 	appencryption.VerifSetClock(func() time.Time { return time.Unix(0, w.now.Load()) })
 	w.fac = w.newFactory()
 	return w
@@ -344,6 +378,18 @@ func scenarios() []scenario {
 	out = append(out, scenario{"refresh-revoked", config{sk: "simple", ik: "simple", shared: true},
 		[]op{encOp("a", "p0", "x0"), encOp("b", "p0", "y0"), revokeLatestSK(), advance(61 * time.Second)},
 		encOp("a", "p0", ""), encOp("b", "p0", "")})
+	// C20 under concurrency: two sessions need the same (cold / stale) system key at the same time
+	for _, ik := range []string{"simple", "none"} {
+		out = append(out, scenario{"c20-cold-sk-ik:" + ik, config{sk: "simple", ik: ik},
+			[]op{other(encOp("o", "p0", "x0")), other(encOp("o", "p1", "x1"))},
+			decOp("a", "p0", "x0"), decOp("b", "p1", "x1")})
+		out = append(out, scenario{"c20-stale-sk-ik:" + ik, config{sk: "simple", ik: ik},
+			[]op{other(encOp("o", "p0", "x0")), other(encOp("o", "p1", "x1")), decOp("a", "p0", "x0"), decOp("b", "p1", "x1"), advance(61 * time.Second)},
+			decOp("a", "p0", "x0"), decOp("b", "p1", "x1")})
+	}
+	out = append(out, scenario{"c20-cold-sharedik", config{sk: "simple", ik: "simple", shared: true},
+		[]op{other(encOp("o", "p0", "x0"))},
+		decOp("a", "p0", "x0"), decOp("b", "p0", "x0")})
 	// session churn against a shared cache
 	out = append(out, scenario{"churn-sharedik", config{sk: "lru:1", ik: "lru:1", shared: true},
 		[]op{encOp("a", "p0", "x0"), encOp("b", "p1", "x1")},
@@ -458,7 +504,9 @@ func preempt(filter string) {
 		if filter != "" && !strings.Contains(sc.name, filter) {
 			continue
 		}
-		// sequential oracles: A then B, and B then A, must both succeed
+		// sequential oracles: A then B, and B then A, must both succeed; they also bound the number of
+		// KMS unwraps and metastore reads any interleaving of the two operations may make (C20)
+		var maxKD, maxRd int64
 		for _, order := range [][2]op{{sc.a, sc.b}, {sc.b, sc.a}} {
 			w, err := prepare(sc, 7)
 			if err != nil {
@@ -466,7 +514,14 @@ func preempt(filter string) {
 				nViol++
 				continue
 			}
+			kd0, rd0 := w.ckms.decs.Load(), w.cms.reads.Load()
 			r1, r2 := runOp(w, order[0]), runOp(w, order[1])
+			if d := w.ckms.decs.Load() - kd0; d > maxKD {
+				maxKD = d
+			}
+			if d := w.cms.reads.Load() - rd0; d > maxRd {
+				maxRd = d
+			}
 			w.close()
 			leak := w.settled()
 			nSched++
@@ -500,6 +555,7 @@ func preempt(filter string) {
 				}
 				g := &gate{armed: true, target: k, reached: make(chan string, 1), resume: make(chan struct{})}
 				appencryption.VerifSetSyncHook(g.hook)
+				kd0, rd0 := w.ckms.decs.Load(), w.cms.reads.Load()
 				aDone := make(chan string, 1)
 				go func() { aDone <- runOp(w, pair[0]) }()
 				var at string
@@ -547,6 +603,11 @@ func preempt(filter string) {
 				okB := resB == "ok" || resB == "blocked-then-ok"
 				if resA != "ok" || !okB || w.sf.useAfterClose > 0 {
 					tag = " VIOLATION"
+					nViol++
+				}
+				kd, rd := w.ckms.decs.Load()-kd0, w.cms.reads.Load()-rd0
+				if tag == "" && strings.HasPrefix(sc.name, "c20-") && (kd > maxKD || rd > maxRd) {
+					tag = fmt.Sprintf(" prop=C20 kms-unwraps=%d(sequential max %d) metastore-reads=%d(sequential max %d) VIOLATION", kd, maxKD, rd, maxRd)
 					nViol++
 				}
 				leak := int64(0)
@@ -670,8 +731,52 @@ func stress(rounds, goroutines, opsEach int, rng *prng.R) {
 	}
 }
 
+// memstore: concurrent Store calls on one (id, created) of the in-memory metastore: exactly one may
+// report true, and the record read back afterwards must be that caller's (C13: insert-only).
+func memstore(rounds, writers int) {
+	for r := 0; r < rounds; r++ {
+		ms := persistence.NewMemoryMetastore()
+		var start sync.WaitGroup
+		var done sync.WaitGroup
+		start.Add(1)
+		oks := make([]bool, writers)
+		for i := 0; i < writers; i++ {
+			done.Add(1)
+			go func(i int) {
+				defer done.Done()
+				start.Wait()
+				ok, _ := ms.Store(context.Background(), "id", 42, &appencryption.EnvelopeKeyRecord{ID: "id", Created: 42, EncryptedKey: []byte{byte(i)}})
+				oks[i] = ok
+			}(i)
+		}
+		start.Done()
+		done.Wait()
+		winners := 0
+		w := -1
+		for i, ok := range oks {
+			if ok {
+				winners++
+				w = i
+			}
+		}
+		got, _ := ms.Load(context.Background(), "id", 42)
+		nSched++
+		bad := winners != 1 || got == nil || len(got.EncryptedKey) != 1 || int(got.EncryptedKey[0]) != w
+		if bad {
+			nViol++
+			if nViol <= 5 {
+				stored := -1
+				if got != nil && len(got.EncryptedKey) == 1 {
+					stored = int(got.EncryptedKey[0])
+				}
+				fmt.Fprintf(out, "memstore round=%d writers=%d => acknowledged=%d stored-record-of=%d prop=C13 VIOLATION\n", r, writers, winners, stored)
+			}
+		}
+	}
+}
+
 func main() {
-	mode := flag.String("mode", "preempt", "preempt|stress")
+	mode := flag.String("mode", "preempt", "preempt|stress|memstore")
 	filter := flag.String("scenario", "", "substring filter on scenario names")
 	rounds := flag.Int("rounds", 18, "stress rounds")
 	gor := flag.Int("goroutines", 8, "stress goroutines")
@@ -683,6 +788,8 @@ func main() {
 		preempt(*filter)
 	case "stress":
 		stress(*rounds, *gor, *opsEach, prng.FromEnv(8))
+	case "memstore":
+		memstore(*rounds, *gor)
 	}
 	fmt.Fprintf(out, "SUMMARY engine=conc mode=%s schedules=%d points=%d violations=%d blocked=%d\n", *mode, nSched, nPoints, nViol, nBlocked)
 }
